@@ -236,3 +236,21 @@ def _ty_call(ip, r, a, kw, node):
 
 
 R.METHODS[("Ty", "__call__")] = _ty_call
+
+# ---- itertools.chain / chain.from_iterable (membership view is all the repo needs)
+flat = declare_pred("flat", L.V, L.V, tag="seq")
+_S, _x, _p = L.const("fS"), L.const("fx"), L.const("fp", L.I)
+flat_src = L.fn("flat_src", L.V, L.V, L.I)
+ax("flat-elim", L.FA([_S, _x], z3.Implies(L.has(flat(_S), _x), z3.And(0 <= flat_src(_S, _x), flat_src(_S, _x) < L.len_(_S), L.has(L.nth(_S, flat_src(_S, _x)), _x))),
+                     [L.has(flat(_S), _x)]))
+ax("flat-intro", L.FA([_S, _x, _p], z3.Implies(z3.And(0 <= _p, _p < L.len_(_S), L.has(L.nth(_S, _p), _x)), L.has(flat(_S), _x)),
+                      [(flat(_S), L.has(L.nth(_S, _p), _x))]))
+R.EXTERNALS["itertools.chain"] = R.ExtFn(lambda ip, a, kw, node: ZV(L.seq_concat(ip.seq_of(a[0]).term, ip.seq_of(a[1]).term), "seq") if len(a) == 2 else (_ for _ in ()).throw(Unsupported("chain arity")))
+R.EXTERNALS["itertools.chain.from_iterable"] = R.ExtFn(lambda ip, a, kw, node: ZV(flat(ip.seq_of(a[0]).term), "seq"))
+ax("depth-td-pos", L.FA(t, z3.Implies(kind(t) == K["TD"], depth(t) >= 1), [depth(t)]))
+ax("mdepth-empty", L.FA(sq, z3.Implies(L.len_(sq) == 0, mdepth(sq) == 0), [mdepth(sq)]))
+
+
+@spec("flat_")
+def _flat_spec(ip, a, kw):
+    return ZV(flat(as_v(a[0])), "seq")
